@@ -166,6 +166,34 @@ pub fn one_scenario(rep: &Report, idx: usize, sc: &Scenario, release: bool, keep
             rep.nontrivial(format!("p{}:{}", idx, sc.key()));
         }
         rep.seen("process.prior_shapes", format!("{}/{}", sc.out_kind.name(), sc.prior.as_ref().map(|d| d.name()).unwrap_or_default()));
+        // The same update with one read of the output failing once (EIO): scan reads make
+        // the clone fail; a read inside the re-ordering must not be papered over either.
+        // Whatever happens, success must still mean an exact output.
+        let reads = o.shim.iter().filter(|r| r.widx == 0 && (r.kind == crate::proc::K_READ || r.kind == crate::proc::K_PREAD) && r.ret > 0).count();
+        if moved && reads > 0 && !release {
+            let mut frng = Rng::new(sc.src_seed ^ 0x4ead);
+            let mut ks: Vec<usize> = if reads <= 6 { (0..reads).collect() } else { (0..6).map(|_| frng.usize_below(reads)).collect() };
+            // the last reads belong to the re-ordering
+            ks.push(reads - 1);
+            ks.sort();
+            ks.dedup();
+            for k in ks {
+                cc::prepare_output(&b, sc);
+                let of = cc::run_clone(&dir, &b, sc, &format!("rf{}", k), &Faults { read_fault: Some(format!("0,{},{}", k, libc::EIO)), ..Default::default() });
+                rep.eval();
+                if of.exit == Exit::Timeout || !of.fault_fired {
+                    rep.count("process.read_fault_not_reached", 1);
+                    continue;
+                }
+                rep.count("process.read_faults_fired", 1);
+                if of.exit.ok() {
+                    cc::judge_final(&b, sc, &of).map_err(|e| format!("read #{} of the output failed once (EIO) and the clone still reported success: {}", k, e))?;
+                    rep.count("process.read_fault_survived_exact", 1);
+                } else {
+                    rep.count("process.read_fault_reported", 1);
+                }
+            }
+        }
         rep.sample_if(idx % 23 == 0, || {
             json!({"scenario": sc.to_json(), "prior_len": plen, "source_len": b.source.len(), "reused_chunks": b.pred.from_prior.len(),
                    "in_place": b.pred.in_place.len(), "fetch": b.pred.fetch.len(), "writes": o.writes.len()})
